@@ -1,6 +1,7 @@
 import PhysisModel.Proofs.C18Hdr
 import PhysisModel.Proofs.C18Fmt
 import PhysisModel.Proofs.C18Dat
+import PhysisModel.Proofs.C18Mdl
 /-!
 # C18 — damaged game data is rejected without crashing
 
@@ -130,5 +131,15 @@ example : (C18Hdr.uld [0x75, 0x6c, 0x64, 0x68, 0x30, 0x31, 0x30, 0x30, 1, 0, 0, 
   decide
 example : (C18Hdr.uld [0x75, 0x6c, 0x64, 0x68, 0x30, 0x31, 0x30, 0x30, 1, 0, 0, 0, 2, 0, 0]).isOk = false := by
   decide
+
+/-! ## part `mdl`: `MDL::from_existing` (binrw stage + the hand-written level-of-detail / mesh /
+vertex / index / sub-mesh / shape / stream loops), repaired by `fixes/C18-50 … C18-59` -/
+
+theorem c18_mdl_total (b : Bytes) : ¬ faults (C18Mdl.mdl b) := (C18Mdl.mdl_good b).1
+theorem c18_mdl_alloc (b : Bytes) : (C18Mdl.mdl b).peak ≤ 64 * b.length + 16777216 := (C18Mdl.mdl_good b).2
+/-- the binrw stage on its own (`ModelFileHeader::read` + `ModelData::read_args`) -/
+theorem c18_mdl_header_total (b : Bytes) : ¬ faults (C18Mdl.mdlHeader b) := (C18Mdl.mdlHeader_good b).1
+theorem c18_mdl_header_alloc (b : Bytes) : (C18Mdl.mdlHeader b).peak ≤ 64 * b.length + 16777216 :=
+  (C18Mdl.mdlHeader_good b).2
 
 end Physis.C18
